@@ -45,6 +45,9 @@ pub struct CtrlCfg {
     /// vendor reference sleep sequence of the panel ends with the UC-style 0x07 0xA5 although the
     /// controller is an SSD part (3in7)
     pub vendor_uc_sleep: bool,
+    /// the driver waits for the *start* of the power-off busy pulse (5in65f wait_busy_low): unless a
+    /// check explores shorter pulses explicitly, the pulse is visible to at least this many polls
+    pub pof_pulse_floor: u32,
 }
 
 #[derive(Clone, Copy, Debug, PartialEq, Eq)]
@@ -140,6 +143,8 @@ pub struct BusyGen {
     pub schedule: Vec<u32>,
     pub pos: usize,
     pub default_d: u32,
+    /// explore power-off pulses shorter than ChipCfg::pof_pulse_floor (C05 does)
+    pub pof_floor_off: bool,
     pub episodes: u32,
     pub refresh_episodes_nonzero: u32,
 }
@@ -150,7 +155,10 @@ impl BusyGen {
         d
     }
     fn raise(&mut self, refresh: bool) {
-        let d = self.next_d();
+        self.raise_min(refresh, 0)
+    }
+    fn raise_min(&mut self, refresh: bool, floor: u32) {
+        let d = self.next_d().max(floor);
         self.episodes += 1;
         if refresh && d > 0 {
             self.refresh_episodes_nonzero += 1;
@@ -354,6 +362,10 @@ impl Ctrl {
     }
 
     /// returns (busy asserted, low_active)
+    pub fn busy_low(&self) -> bool {
+        self.cfg.busy_low
+    }
+
     pub fn busy_poll(&mut self) -> (bool, bool) {
         (self.busy.poll(), self.cfg.busy_low)
     }
@@ -722,7 +734,8 @@ impl Ctrl {
                     self.busy.held = true;
                     self.busy.held_in = d;
                 } else {
-                    self.busy.raise(false);
+                    let floor = if self.busy.pof_floor_off { 0 } else { self.cfg.pof_pulse_floor };
+                    self.busy.raise_min(false, floor);
                 }
             }
             0x04 => {
